@@ -139,6 +139,36 @@ CHECKS = {
         'active exception); greenthread switches are modelled only by '
         'raise-and-catch; finding F-g routed by predicate.',
         'DESIGN.md section 4 C09'),
+    'C10': (
+        'grammar construction with validity known by construction + exact '
+        'rational reference (exhaustive grid and short-string enumeration, '
+        'Hypothesis corruptions)',
+        'exploration',
+        'A 975 744-case grid of sign x magnitude x prefix (all 22 + foreign) '
+        'x unit x unit system x return_int and every string up to length 5 '
+        'over a 12-symbol alphabet are enumerated; results compared with '
+        'Fractions (1e-12 relative where floats are allowed, exact ceilings '
+        'otherwise); anything invalid by construction must raise ValueError '
+        'and nothing else; QemuImgInfo human-format lines (deterministic '
+        'table + Hypothesis) with the explicit "(N bytes)" precedence.',
+        'Magnitudes that overflow float and non-ASCII digits are '
+        'unspecified; validity by construction is cross-checked against an '
+        'independent recogniser.',
+        'DESIGN.md section 4 C10'),
+    'C11': (
+        'validity-by-construction grammars + differential against the '
+        'standard library ipaddress (Hypothesis + deterministic families)',
+        'exploration',
+        'Address / CIDR / MAC / port / ICMP strings from grammars that know '
+        'their validity, each put to all eleven validators: must-accept when '
+        'valid by construction and accepted by ipaddress, must-reject when '
+        'invalid and rejected by it, never an exception for any str; range '
+        'ends in int and str form enumerated. Finding F-j (netaddr-lenient '
+        'prefix spellings) routed by predicate.',
+        'ipaddress is the arbiter where it defines the answer; inet_aton '
+        'forms, is_valid_ipv6_cidr on a bare address, scope ids inside CIDRs '
+        'and non-canonical integer spellings are unspecified.',
+        'DESIGN.md section 4 C11'),
     'C12': (
         'round trips + integer-microsecond reference model, boundary-aimed '
         'generation, exhaustive minute offsets',
@@ -152,6 +182,34 @@ CHECKS = {
         'Trusts the integer-microsecond model and the stdlib datetime/'
         'zoneinfo; sub-microsecond second counts are not generated.',
         'DESIGN.md section 4 C12'),
+    'C14': (
+        'classification by construction + cross-function relations '
+        '(exhaustive word / short-string tables, Hypothesis near-misses)',
+        'exploration',
+        'The 12 boolean words in every case pattern x padding x strict x '
+        'default and every numeric string up to length 5 over a 9-symbol '
+        'alphabet are enumerated for is_int_like / validate_integer; '
+        'check_string_length table; Hypothesis for near-misses, big integers '
+        'and every UUID spelling (31..34 hex digits in every decoration); '
+        'generate_uuid draws must satisfy is_uuid_like; is_valid_boolstr '
+        'must agree with strict bool_from_string on unpadded input.',
+        'Unicode padding / case folding, non-canonical integer spellings '
+        'int() accepts, max_length=0 and upper-case URN:UUID: are '
+        'unspecified.',
+        'DESIGN.md section 4 C14'),
+    'C15': (
+        'independent bit arithmetic + inverse composition + differential '
+        'against urllib.parse (deterministic families + Hypothesis)',
+        'exploration',
+        'MAC bit patterns (all-zero/one, each single bit, U/L bit, random) x '
+        'prefixes with and without host bits: EUI-64 address computed with '
+        'plain integers, inverse recovers the MAC; host:port round trip over '
+        'names, IPv4, IPv6 with scopes x ports x defaults; URLs from a '
+        'grammar compared component-wise with urllib.parse.urlsplit and '
+        'params() with the generating pairs.',
+        'Prefixes longer than /64, netaddr-only MAC spellings and IPv4 CIDRs '
+        'as prefix are unspecified (exception contract only).',
+        'DESIGN.md section 4 C15'),
     'C16': (
         'round trip / algebraic laws over generated text x codec tables '
         '(Hypothesis), stdlib codecs as reference',
@@ -191,6 +249,19 @@ CHECKS = {
         'Specs outside the documented grammar are not generated; the oracle '
         'is the documented operator meaning written with Fractions.',
         'DESIGN.md section 4 C18'),
+    'C19': (
+        'reference model written from the statement + inverse of quoting '
+        '(exhaustive bounded families + Hypothesis)',
+        'exploration',
+        'split_path compared with a reference model on every path of 0-7 '
+        'segments x 46 (minsegs, maxsegs, rest_with_last) settings and on '
+        'Hypothesis paths with Unicode segments; split_by_commas compared '
+        'with a reference scanner on every string over {a , " \\ space} up '
+        'to length 7, quote/join round trips and malformed constructions '
+        '(ValueError only).',
+        'maxsegs=0, unquoted spaces/backslashes and escapes of other '
+        'characters are unspecified zones of the statement.',
+        'DESIGN.md section 4 C19'),
     'C20': (
         'differential against whole-content computation (hashlib, slicing) + '
         'exhaustive errno injection',
